@@ -92,6 +92,56 @@ func (fr *Frame) execCall(ins ssa.Instruction, cc *ssa.CallCommon, c *blockCtx) 
 	if cl, ok := g.closures[fv.S]; ok {
 		return fr.callStatic(cl.fn, cl.bindings, args, sig, c, ins)
 	}
+	// a phi over closures made in this function: run each candidate under the condition that it is the callee
+	if phi, ok := cc.Value.(*ssa.Phi); ok {
+		var cands []*closureVal
+		var cterms []string
+		all := true
+		for _, e := range phi.Edges {
+			t := fr.val(e)
+			cl, ok := g.closures[t.S]
+			if !ok {
+				all = false
+				break
+			}
+			dup := false
+			for _, ct := range cterms {
+				dup = dup || ct == t.S
+			}
+			if !dup {
+				cands = append(cands, cl)
+				cterms = append(cterms, t.S)
+			}
+		}
+		if all && len(cands) > 0 {
+			before := c.st
+			beforeReach := c.reach
+			var conds []string
+			var sts []*State
+			var results [][]Term
+			var reaches []string
+			for i, cl := range cands {
+				cond := eq(fv.S, cterms[i])
+				run := &blockCtx{st: before.clone(), reach: and(beforeReach, cond)}
+				res := fr.callStatic(cl.fn, cl.bindings, args, sig, run, ins)
+				conds = append(conds, cond)
+				sts = append(sts, run.st)
+				results = append(results, res)
+				reaches = append(reaches, and(cond, run.reach))
+			}
+			c.st = g.mergeStates(conds, sts)
+			c.reach = and(beforeReach, or(reaches...))
+			var out []Term
+			for k := 0; k < sig.Results().Len(); k++ {
+				var ts []Term
+				for _, r := range results {
+					ts = append(ts, r[k])
+				}
+				out = append(out, mergeTerms(conds, ts))
+			}
+			return out
+		}
+	}
 	// function-typed field or parameter with a field contract
 	if key, fc := fr.funcValueContract(cc.Value); fc != nil {
 		return fr.applyContract(fc, key, sig, args, sigParamTypes(sig), c, ins)
